@@ -1038,3 +1038,166 @@ Proof.
   - intros p G. apply (inv_pend s' I') in G. rewrite S0 in G. destruct G.
   - intros x. unfold step. rewrite A0. reflexivity.
 Qed.
+
+(* ================================================================= *)
+(* 7. the worker (worker_coro) under a virtual clock                 *)
+(* ================================================================= *)
+
+(* whenever the worker is blocked in wait_until(d): a notification is pending, or d is not later than ANY time point
+   in the array (d = time_point::max only while the array is empty) *)
+Definition wait_ok (w : wst) : Prop :=
+  match w_mode w with
+  | WRun => True
+  | WWait d ntf =>
+      ntf = true \/
+      match d with
+      | Some t => forall e, In e (w_sched w) -> t <= e_tp e
+      | None => w_sched w = []
+      end
+  end.
+
+Record winv (w : wst) : Prop := mkWinv {
+  wi_heap : heap_ok (w_sched w);
+  wi_err : w_err w = false;
+  wi_wait : wait_ok w;
+  wi_done : forall t now, In (t, now) (w_done w) -> live t = true /\ e_tp t <= now /\ now <= w_now w }.
+
+Lemma winv0 : winv wst0.
+Proof. split; cbn; auto using heap_ok_nil. intros t now []. Qed.
+
+Lemma wait_ok_notify l now m stop done :
+  wait_ok (mkW l now (notify m) stop done false).
+Proof. unfold wait_ok. cbn [w_mode]. destruct m; cbn [notify]; auto. Qed.
+
+Lemma wstep_inv w e : winv w -> winv (wstep w e).
+Proof.
+  intros [IH IE IW ID]. unfold wstep. rewrite IE.
+  destruct e as [pid id tp|id|dt| | |].
+  - (* schedule from another thread *)
+    unfold schedule. set (en := mkE tp (Some pid) id).
+    destruct (heap_push_ok (w_sched w) en IH) as (H1 & P1 & L1).
+    split; cbn [w_sched w_err w_mode w_done w_now]; auto.
+    destruct (is_empty (w_sched w) || match w_sched w with t :: _ => e_tp en <? e_tp t | [] => true end)%bool eqn:NT.
+    + apply wait_ok_notify.
+    + unfold wait_ok in *. cbn [w_mode w_sched]. destruct (w_mode w) as [|d ntf]; [exact I|].
+      destruct IW as [IW|IW]; [left; exact IW|right].
+      destruct (w_sched w) as [|t rest] eqn:EL; [cbn in NT; discriminate|].
+      cbn [is_empty orb] in NT.
+      destruct d as [td|]; [|discriminate].
+      intros u IU. apply (Permutation_in _ P1) in IU. destruct IU as [<-|IU]; [|apply IW; exact IU].
+      specialize (IW t (or_introl eq_refl)). lia.
+  - (* remove / cancel from another thread: never notifies, and does not need to *)
+    destruct (remove_ok (w_sched w) id IH) as (l' & r & E & H' & TS & EM & _). rewrite E. cbn [fst].
+    split; cbn [w_sched w_err w_mode w_done w_now]; auto.
+    unfold wait_ok in *. cbn [w_mode w_sched]. destruct (w_mode w) as [|d ntf]; [exact I|].
+    destruct IW as [IW|IW]; [left; exact IW|right].
+    destruct d as [td|]; [|apply EM; exact IW].
+    intros u IU. destruct (TS u IU) as (u' & IU' & <-). apply IW. exact IU'.
+  - split; cbn [w_sched w_err w_mode w_done w_now]; auto.
+    intros t now IT. destruct (ID t now IT) as (A & B & C). repeat split; auto. lia.
+  - (* one worker iteration *)
+    destruct (w_stop w || negb (runnable w))%bool; [split; assumption|].
+    destruct (get_expired_ok (w_sched w) (w_now w) IH) as (l' & r & E & H' & SUB & SP). rewrite E.
+    destruct r as [t|tp|]; cbn [expired_spec] in SP.
+    + destruct SP as (LT & DUE & _). split; cbn [w_sched w_err w_mode w_done w_now]; auto.
+      * exact I.
+      * intros t0 now [Q|IT]; [inversion Q; subst; repeat split; auto; lia|apply ID; exact IT].
+    + destruct SP as (_ & _ & _ & MIN). split; cbn [w_sched w_err w_mode w_done w_now]; auto.
+      unfold wait_ok. cbn [w_mode w_sched]. right. exact MIN.
+    + destruct SP as (-> & _). split; cbn [w_sched w_err w_mode w_done w_now]; auto.
+      unfold wait_ok. cbn [w_mode w_sched]. right. reflexivity.
+  - split; cbn [w_sched w_err w_mode w_done w_now]; auto. apply wait_ok_notify.
+  - split; cbn [w_sched w_err w_mode w_done w_now]; auto. apply wait_ok_notify.
+Qed.
+
+Lemma wrun_inv evs : forall w, winv w -> winv (wrun w evs).
+Proof. induction evs as [|e t IH]; intros w I; cbn [wrun fold_left]; [exact I|]. apply IH. apply wstep_inv. exact I. Qed.
+
+(* (idle wakes on time) for every interleaving of schedule / cancel calls from other threads, clock ticks, spurious
+   wake-ups and stop requests: the worker never hits an out-of-bounds access; it is never left blocked once the clock
+   has reached the time point of any entry of the array; and what it completed was due when completed *)
+Theorem idle_wakes_on_time evs : let w := wrun wst0 evs in
+  w_err w = false /\
+  (forall e, In e (w_sched w) -> e_tp e <= w_now w -> runnable w = true) /\
+  (forall t now, In (t, now) (w_done w) -> e_tp t <= now).
+Proof.
+  cbn zeta. pose proof (wrun_inv evs wst0 winv0) as [IH IE IW ID].
+  split; [exact IE|]. split.
+  - intros e IN DUE. unfold runnable. unfold wait_ok in IW.
+    destruct (w_mode (wrun wst0 evs)) as [|d ntf]; [reflexivity|].
+    destruct IW as [->|IW]; [reflexivity|].
+    destruct d as [t|].
+    + specialize (IW e IN). apply orb_true_iff. right. lia.
+    + rewrite IW in IN. destruct IN.
+  - intros t now IT. apply (ID t now IT).
+Qed.
+
+(* ... and when it runs with a due live entry in the array, that iteration completes a due entry with the least
+   time point among the pending ones (it does not go back to sleep and does not pick a later one) *)
+Theorem worker_resolves_due evs : let w := wrun wst0 evs in
+  w_stop w = false -> runnable w = true ->
+  (exists e, In e (pending (w_sched w)) /\ e_tp e <= w_now w) ->
+  exists t, w_done (wstep w WIter) = (t, w_now w) :: w_done w /\ In t (pending (w_sched w)) /\
+            (forall u, In u (pending (w_sched w)) -> e_tp t <= e_tp u) /\
+            Permutation (pending (w_sched w)) (t :: pending (w_sched (wstep w WIter))).
+Proof.
+  cbn zeta. pose proof (wrun_inv evs wst0 winv0) as [IH IE IW ID].
+  set (w := wrun wst0 evs) in *. intros ST RN (e & IN & DUE).
+  unfold wstep. rewrite IE, ST, RN. cbn [orb negb].
+  destruct (get_expired_ok (w_sched w) (w_now w) IH) as (l' & r & E & H' & SUB & SP). rewrite E.
+  destruct r as [t|tp|]; cbn [expired_spec] in SP.
+  - destruct SP as (LT & DUE' & P & MIN). exists t. cbn [w_done w_sched]. repeat split; auto.
+    apply (Permutation_in _ (Permutation_sym P)). left. reflexivity.
+  - exfalso. destruct SP as (FUT & P & _ & MIN).
+    apply (Permutation_in _ P) in IN. apply pending_In in IN. destruct IN as [IN _]. specialize (MIN e IN). lia.
+  - exfalso. destruct SP as (_ & EP). rewrite EP in IN. destruct IN.
+Qed.
+
+(* ================================================================= *)
+(* 8. interval() + stop_token: no self-deadlock, no crash            *)
+(* ================================================================= *)
+
+Definition iinv (s : ist) : Prop := i_owner s = false /\ heap_ok (i_sched s).
+
+Lemma istep_cases cb s o : o = [1] \/ o = [2] \/ o = [3] \/ o = [4] \/ istep cb s o = IOk s [1].
+Proof.
+  destruct o as [|z l]; [auto 6|].
+  destruct z as [|p|p]; try (right; right; right; right; reflexivity).
+  destruct p as [[q|q|]|[q|[r|r|]|]|]; destruct l; try (right; right; right; right; reflexivity); auto 6.
+Qed.
+
+Lemma istep_ok s o : iinv s -> exists s1 ob, istep false s o = IOk s1 ob /\ iinv s1 /\ (exists t, ob = 0 :: t \/ ob = 1 :: t).
+Proof.
+  intros [IO IH].
+  assert (iinv s) as I by (split; assumption).
+  destruct (istep_cases false s o) as [->|[->|[->|[->|E]]]].
+  - cbn [istep]. destruct (i_gen s); eexists _, _; (split; [reflexivity|]); (split; [|eexists; eauto]); try exact I.
+    split; cbn [i_owner i_sched]; auto.
+  - cbn [istep]. destruct (i_gen s); try (eexists _, _; (split; [reflexivity|]); (split; [exact I|eexists; eauto]); fail).
+    all: destruct (i_stop s); eexists _, _; (split; [reflexivity|]); (split; [|eexists; eauto]);
+      split; cbn [i_owner i_sched schedule fst]; auto; apply heap_push_ok; exact IH.
+  - cbn [istep]. destruct (i_stop s); [eexists _, _; split; [reflexivity|]; split; [exact I|eexists; eauto]|].
+    assert (exists s1 ob, stop_callback false (mkI (i_sched s) (i_gen s) true (i_owner s)) = IOk s1 ob /\ iinv s1) as (s1 & ob & ES & I1).
+    { unfold stop_callback, acquire. cbn [i_owner i_sched i_gen i_stop]. rewrite IO. cbn [i_owner i_sched i_gen i_stop].
+      destruct (remove_ok (i_sched s) tag IH) as (l' & r & E & H' & _). rewrite E.
+      destruct r; eexists _, _; (split; [reflexivity|]); split; cbn [i_owner i_sched]; auto. }
+    destruct (i_gen s) eqn:G; try (eexists _, _; (split; [reflexivity|]); (split; [|eexists; eauto]); split; cbn [i_owner i_sched]; auto; fail).
+    all: rewrite ES; eexists _, _; (split; [reflexivity|]); (split; [exact I1|eexists; eauto]).
+  - cbn [istep]. unfold acquire. rewrite IO. cbn [i_sched].
+    destruct (get_expired_ok (i_sched s) 1 IH) as (l' & r & E & H' & _). rewrite E.
+    destruct r; eexists _, _; (split; [reflexivity|]); (split; [|eexists; eauto]); split; cbn [i_owner i_sched]; auto.
+  - rewrite E. eexists _, _. split; [reflexivity|]. split; [exact I|eexists; eauto].
+Qed.
+
+(* (no hang, no crash through the stop token) whatever the sequence of generator calls, request_stop and get_expired:
+   every call returns (the stop callback never re-acquires a mutex its thread holds, remove never leaves the array) *)
+Theorem interval_no_deadlock ops :
+  length (interval_run ops) = length ops /\
+  Forall (fun ob => exists t, ob = 0 :: t \/ ob = 1 :: t) (interval_run ops).
+Proof.
+  unfold interval_run. assert (iinv ist0) as I0 by (split; [reflexivity|apply heap_ok_nil]).
+  revert I0. generalize ist0. induction ops as [|o t IH]; intros s I; cbn [irun_from].
+  - split; [reflexivity|constructor].
+  - destruct (istep_ok s o I) as (s1 & ob & E & I1 & SH). rewrite E.
+    destruct (IH s1 I1) as (L & F). cbn [length]. split; [rewrite L; reflexivity|]. constructor; assumption.
+Qed.
